@@ -89,8 +89,11 @@ package common
 //@   mustfail canary: err != nil
 
 //@ # hash-to-number expansion: one 256-bit limb per started block of 256 bits, none for bitlen 0
+//@ # the value of GetHashNumber is a function of the VALUES of its arguments (which of a, b are present, their values, index, bit length)
+//@ declare hashnumber/6
 //@ func GetHashNumber
-//@   property C15
+//@   property C15 C17
+//@   premise value: val(result) == hashnumber(b2i(a != nil), ite(a != nil, val(a), 0), b2i(b != nil), ite(b != nil, val(b), 0), index, bitlen)
 //@   safety
 //@   requires bitlen <= 1048576
 //@   ensures size: result != nil && fresh(result) && 0 <= val(result) && val(result) < pow2(256 * ((bitlen + 255) / 256))
